@@ -937,7 +937,7 @@ func run(c *hx.Ctx) {
 	}
 	var scens []Scen
 	scens = append(scens, corpus()...)
-	nExact, nFinding, nPull := c.Scale(26, 400), c.Scale(10, 120), c.Scale(60, 900)
+	nExact, nFinding, nPull := c.Scale(40, 400), c.Scale(14, 120), c.Scale(170, 900)
 	for i := 0; i < nExact; i++ {
 		if s, ok := genScen(c.R.Fork(), i, "exact", c.Thorough); ok {
 			scens = append(scens, s)
@@ -952,7 +952,7 @@ func run(c *hx.Ctx) {
 		scens = append(scens, genPull(c.R.Fork(), i))
 	}
 	// run in parallel slots (each slot has its own 127.x /16)
-	par := 12
+	par := 20
 	var wg sync.WaitGroup
 	ch := make(chan Scen)
 	results := make([]struct {
